@@ -1,7 +1,7 @@
 import MythVerif.Model.WsQueue
 /-! x86-TSO model of the work-stealing queue: owner `push` / `pop` (all paths: lock-free fast
     path, locked slow path with the invalidation of the steal cache, reset) and owner `put`
-    (base-side insert under the lock), both with re-centring, against any number of other
+    (base-side insert under the lock), both with re-centring, and `clear`, against any number of other
     participants running `myth_queue_take`, `myth_queue_trypass`, `myth_queue_peek` (lock-free
     loads of `base`, `top` and one slot; the value is a hint to the caller and nothing is removed),
     `myth_wsapi_runqueue_take` (trylock, decision callback: label `tDecide`; a decline rolls `base`
@@ -51,7 +51,9 @@ import MythVerif.Model.WsQueue
     `stuck` / `stuckL` are the two `abort()`s ("Runqueue overflow": `top == size ∧ base == 0`),
     reached holding the lock.
 
-    Not modelled here (the `_partial` in the theorem name): clear. -/
+    `myth_queue_clear` (lock; `myth_assert(top == base)` – its failure is the pc `assertFail`;
+    `base = size/2`; `top = base`; unlock) completes the list: every operation of
+    `myth_wsqueue_func.h` and the two queue functions of `myth_if_native.c` are in the machine. -/
 namespace MythVerif.WsqTso
 open MythVerif.Wsq
 
@@ -116,6 +118,12 @@ inductive OPc where
   | pt7 (e : Elem) (b : Int)         -- q->ptr[b-1] = th
   | pt8 (e : Elem) (b : Int)         -- q->base = b-1
   | pt9                              -- unlock
+  -- clear
+  | assertFail                       -- myth_assert(q->top == q->base) of clear violated (lock held)
+  | cll                              -- lock CAS
+  | cl1                              -- (assert top == base) q->base = size/2
+  | cl2                              -- q->top = q->base
+  | cl3                              -- unlock
   deriving DecidableEq, Repr
 
 inductive TPc where
@@ -246,7 +254,7 @@ def applySto (s : St) : Sto → St
   | .cache x => { s with cache := x }
 
 inductive Lbl where
-  | oPush (e : Elem) | oPop | oPut (e : Elem) | o | flushO
+  | oPush (e : Elem) | oPop | oPut (e : Elem) | oClear | o | flushO
   | tTake (p : Pid) | tPass (p : Pid) (e : Elem) | tPeek (p : Pid) | tWTake (p : Pid) | tWPeek (p : Pid)
   | t (p : Pid) | flushT (p : Pid)
   | tDecide (p : Pid) (accept : Bool)                       -- the decision callback returns
@@ -337,6 +345,17 @@ def stepO (s : St) : Option St :=
   | .pt7 e b => some { s with bufO := s.bufO ++ [.ptr (b - 1) (some e)], opc := .pt8 e b }
   | .pt8 e b => some { s with bufO := s.bufO ++ [.baseI (b - 1) e], opc := .pt9 }
   | .pt9 => (releaseO s).map fun s' => { s' with opc := .idle }
+  | .assertFail => none
+  | .cll => if s.bufO.isEmpty then
+              match s.lock with
+              | .free => some { s with lock := .owner, opc := .cl1 }
+              | _ => some s
+            else none
+  | .cl1 => if viewTop s.bufO s.top = viewBase s.bufO s.base then
+              some { s with bufO := s.bufO ++ [.base (s.size / 2)], lb := s.size / 2, lt := s.size / 2, opc := .cl2 }
+            else some { s with opc := .assertFail }
+  | .cl2 => some { s with bufO := s.bufO ++ [.top (viewBase s.bufO s.base)], opc := .cl3 }
+  | .cl3 => (releaseO s).map fun s' => { s' with opc := .idle }
 
 def stepT (s : St) (p : Pid) : Option St :=
   match s.tpc p with
@@ -447,6 +466,9 @@ def step (s : St) : Lbl → Option St
     | _ => none
   | .oPut e => match s.opc with
     | .idle => some { s with opc := .ptl e }
+    | _ => none
+  | .oClear => match s.opc with
+    | .idle => some { s with opc := .cll }
     | _ => none
   | .o => stepO s
   | .flushO => match s.bufO with
